@@ -295,6 +295,19 @@ void vf_run_case(vf::Ctx& ctx, long idx)
         } while (is_clean_class(P.cls) && P.scale >= 1e-2 && P.scale <= 1e2 && r.coin(0.8));
     }
     MatT A = vg::gen_matrix(r, P.n, P.cls, P.scale).cast<T>();
+    // the sparse wrappers get genuinely sparse patterns (about 30 % filled, full diagonal) where the class allows it - gaussian and symmetric; a dense pattern
+    // never exercises the fill-reducing ordering of the sparse factorizations. Exploration only (the corpus keeps its matrices).
+    if (P.clean && (P.kind == 1 || P.kind == 3 || P.kind == 5) && (P.cls == 0 || P.cls == 11) && r.coin(0.7))
+    {
+        for (int j = 0; j < P.n; j++)
+            for (int i = 0; i < j; i++)
+            {
+                const bool keep_ij = r.coin(0.3), keep_ji = P.cls == 11 ? keep_ij : r.coin(0.3);
+                if (!keep_ij) A(i, j) = T(0);
+                if (!keep_ji) A(j, i) = T(0);
+            }
+        ctx.count("sparse_pattern_cases");
+    }
     P.AL = A.template cast<CLD>();
     P.Ad = A.template cast<double>();
     {
